@@ -8,7 +8,7 @@ import "fmt"
 // correctly - never silently wrong.
 
 // LimitKinds lists the generated shapes.
-var LimitKinds = []string{"locals", "params", "free", "selectors", "array-literal"}
+var LimitKinds = []string{"locals", "params", "free", "free-returned", "free-nested", "selectors", "array-literal"}
 
 // LimitSizes are the boundary sizes per kind.
 func LimitSizes(kind string) []int {
@@ -17,7 +17,7 @@ func LimitSizes(kind string) []int {
 		return []int{254, 255, 256, 257, 258, 300, 513}
 	case "params":
 		return []int{253, 254, 255, 256, 257}
-	case "free":
+	case "free", "free-returned", "free-nested":
 		return []int{254, 255, 256, 257}
 	case "selectors":
 		return []int{254, 255, 256, 257}
@@ -67,6 +67,25 @@ func Limits(kind string, n int) *Program {
 				&Index{X: I("all"), I: N(fmt.Sprint(n - 2))}, &Index{X: I("all"), I: N(fmt.Sprint(n - 1))}}}}}}
 		body = append(body, Def("g", inner), &Return{X: C(I("g"))})
 		return &Program{Main: []Stmt{Def("f", &FuncLit{Body: body}), Def("out", C(I("f")))}}
+	case "free-returned", "free-nested":
+		// the closure is returned directly (not stored in a further local of the enclosing function), so the
+		// enclosing function has exactly n locals and the closure exactly n captured variables; "free-nested"
+		// captures them a second time through an intermediate closure (cells taken from free variables)
+		var body []Stmt
+		var elems []Expr
+		for i := 0; i < n; i++ {
+			body = append(body, Def(v(i), N(fmt.Sprint(i))))
+			elems = append(elems, I(v(i)))
+		}
+		pick := &Return{X: &ArrayLit{Elems: []Expr{&Index{X: &ArrayLit{Elems: elems}, I: N("0")}, I(v(1)), I(v(n - 2)), I(v(n - 1))}}}
+		var inner Expr = &FuncLit{Body: []Stmt{pick}}
+		call := C(C(I("f")))
+		if kind == "free-nested" {
+			inner = &FuncLit{Body: []Stmt{&Return{X: inner}}}
+			call = C(call)
+		}
+		body = append(body, &Return{X: inner})
+		return &Program{Main: []Stmt{Def("f", &FuncLit{Body: body}), Def("out", call)}}
 	case "selectors":
 		// m := {}; cur := m; build a chain of n nested maps, then assign through the whole chain
 		main := []Stmt{Def("m", &MapLit{}), Def("cur", I("m"))}
